@@ -38,9 +38,19 @@ def showRid : Option (List Nat) → String
   | some a => toHex a
 
 /-- ops: reset | file none | file <0|1> <id>* | load | add <k> <id> | remove <k> | set <uid> <id> |
-search <id> | dosearch <id> | getuserid <uid> | poke head|next <i> <v> | attach <v> <s> <V> <S> -/
-def stepC04 (d : DS) (ws : List String) : DS × String :=
+search <id> | dosearch <id> | getuserid <uid> | lookupall | poke head|next <i> <v> | attach <v> <s> <V> <S> |
+peer <add|remove|set|search|dosearch|getuserid|lookupall …> -/
+def showAll (l : List (Nat × List Int)) : String :=
+  if l.isEmpty then "-" else
+  " ".intercalate (l.map fun (k, us) => toString k ++ ":" ++ ",".intercalate (us.map toString))
+
+/-- `peer <op>`: the same operation executed by the second process attached to the segment — the segment is the only
+state of the index, so the model runs the op on the one state. -/
+def peerOps : List String := ["add", "remove", "set", "search", "dosearch", "getuserid", "lookupall"]
+
+def stepCore (d : DS) (ws : List String) : DS × String :=
   match ws with
+  | ["lookupall"] => noDump d (do let l ← lookupAll d.s; pure (showAll l))
   | ["reset"] => ({ d with s := resetSt env }, "ok")
   | ["file", "none"] => ({ d with file := none }, "ok")
   | "file" :: t :: ids =>
@@ -86,5 +96,10 @@ def stepC04 (d : DS) (ws : List String) : DS × String :=
     | some v, some s, some wv, some wsz => (d, handshake v s wv wsz)
     | _, _, _, _ => (d, "bad-op")
   | _ => (d, "bad-op")
+
+def stepC04 (d : DS) (ws : List String) : DS × String :=
+  match ws with
+  | "peer" :: op :: rest => if peerOps.contains op then stepCore d (op :: rest) else (d, "bad-op")
+  | _ => stepCore d ws
 
 def main : IO Unit := runHandler { init := { s := resetSt env, file := none }, step := stepC04 }
